@@ -272,6 +272,19 @@ def run(prog, rep):
                             locs = {tt.id for s in walk_no_nested(f.node) if isinstance(s, ast.Assign) for tt in s.targets if isinstance(tt, ast.Name)}
                             if t.value.id not in locs:
                                 bad = (f, x, f"module-level `{t.value.id}` is written")
+        # module-level stateful objects (iterators, counters, generators, deques): consuming one inside a function is shared state
+        stateful = {}
+        for name_, v_ in m.assigns.items():
+            if isinstance(v_, ast.GeneratorExp) or (isinstance(v_, ast.Call) and norm(v_.func) in (
+                    "itertools.count", "count", "itertools.cycle", "cycle", "iter", "itertools.chain", "collections.deque", "deque", "collections.Counter", "Counter",
+                    "collections.defaultdict", "defaultdict", "collections.OrderedDict", "OrderedDict", "bytearray", "io.BytesIO", "BytesIO", "random.Random")):
+                stateful[name_] = v_
+        if stateful and not bad:
+            for f in list(m.functions.values()) + [x for c in m.classes.values() for x in c.all_funcs()]:
+                locs = {t.id for s_ in ast.walk(f.node) for t in ast.walk(s_) if isinstance(t, ast.Name) and isinstance(t.ctx, ast.Store)} | {a.arg for a in f.node.args.args}
+                for x in ast.walk(f.node):
+                    if isinstance(x, ast.Name) and isinstance(x.ctx, ast.Load) and x.id in stateful and x.id not in locs:
+                        bad = (f, x, f"module-level stateful object `{x.id}` (= {norm(stateful[x.id])[:40]}) is consumed")
         if bad:
             f, x, why = bad
             rep.fail("no-module-state", m.path.name, f.qualname, x, f"{why} inside a function: state shared by every block")
